@@ -42,6 +42,45 @@ claim("C20", "fault_enumeration",
       "TLA+ spec of the save/crash/shutdown state machine checked by TLC with strace-derived operations; fault enumeration in a child process; gated shutdown replay",
       "DESIGN.md 4/C20", "credstore")
 
+claim("C09", "exploration",
+      "specs/Route/Router.tla defines routing twice: declaratively in Kleene logic from the RouteConfig field comments (the oracle) and as the "
+      "criterion list the code builds; TLC checks that the second refines the first (ImplRefinesDecl, LookupMonotone, AppendLaw) over route and "
+      "request lattices and prints every (configuration, request, resolver behaviour, expected) case; each case is rendered to the real JSON "
+      "router.Config, built with Config.Router with fake clients and scripted resolvers, and GetTCPClient/GetUDPClient is compared (panics are results).",
+      "GeoIP and regexp rules not covered; exhaustive only over the catalogue lattices (<=2 criterion kinds per route, the full destination group, "
+      "template orders <=3-4 routes), longer lists sampled; two documented-ambiguous combinations are notes, not verdicts.",
+      "TLA+ declarative spec + TLC enumeration of model-derived cases replayed on the real Router",
+      "DESIGN.md 4/C09", "router")
+claim("C11", "model_checking",
+      "TLC checks RightDestination/RepliesToOwner on specs/Relay/UdpRelay.tla for every interleaving of two sessions with the direct client's "
+      "resolution cache as separate check/resolve/store/load steps (thorough: a shared packer must violate RightDestination). The interleavings "
+      "are replayed on real NAT relays on loopback built from a JSON service.Config (generic and recvmmsg/sendmmsg paths), with the verifhook "
+      "points in the relay and in the packer as scheduler gates and a scripted DNS server behind net.DefaultResolver: which target socket got "
+      "which payload, which client got which reply from which source, and that garbage creates no session, are compared.",
+      "SOCKS5 server + direct client relays; other protocol pairs share the relay code and differ in the packers (C05); kernel UDP on loopback; "
+      "batched uplink of the sendmmsg path replayed only where at most one packet is queued per session.",
+      "TLA+ spec + TLC exhaustive model checking; gated replay of TLC interleavings on real UDP relays over loopback sockets",
+      "DESIGN.md 4/C11", "udprelay")
+claim("C12", "model_checking",
+      "TLC checks NoSendOnClosed/NoLeak/SocketReleased and, under weak fairness of the goroutine steps with NAT timers disabled once Stop has "
+      "begun, StopTerminates and IdleEvicts on specs/Relay/UdpRelay.tla (thorough: without the re-arm guard StopTerminates must fail). The "
+      "state graph, with the steps the real system takes by itself treated as urgent, is replayed on real NAT relays on loopback with the "
+      "verifhook points as scheduler gates: Stop latency against the NAT timeout, goroutine and socket accounting after Stop, eviction after "
+      "the NAT timeout and a fresh session afterwards are observed on the real process.",
+      "NAT relays (socks5 server, direct client), generic and sendmmsg; the session relays share the skeleton; 'prompt' = min(natTimeout/3, 8 s); "
+      "real-time eviction replays tolerate (skip) spontaneous timeouts on a slow machine.",
+      "TLA+ spec + TLC safety and liveness checking; gated replay of lifecycle interleavings on real UDP relays with leak accounting",
+      "DESIGN.md 4/C12", "udprelay")
+claim("C13", "model_checking",
+      "TLC checks the stream-prefix, initial-payload-once, failure-reply, half-close and statistics invariants and termination on "
+      "specs/Relay/TcpRelay.tla for every wait decision (server native x client native x listener flag). Every path of the state graphs becomes "
+      "one real connection through a TCP relay built from a JSON service.Config (server protocol x client protocol, proxy client protocols chained "
+      "through a second relay), harness client through the repository's own client code, harness target on loopback: stream positions, "
+      "end-of-stream order, replies and the statistics API are compared.",
+      "Kernel TCP on loopback; byte unit mapped to 1/700/1440/1441/70000 bytes; dial failures: refused, unreachable, lookup failure, router rejection.",
+      "TLA+ spec + TLC model checking; state-graph paths replayed as real connections through a relay built from service.Config",
+      "DESIGN.md 4/C13", "tcprelay")
+
 NA = {}
 
 def main():
